@@ -49,13 +49,13 @@ func createASTTypeExpr(pkg string, t types.Type, varPool *VarPool, imports map[s
 				}
 			}
 
-			return &ast.SelectorExpr{
+			return instantiateASTTypeExpr(pkg, &ast.SelectorExpr{
 				X:   ast.NewIdent(pkgName),
 				Sel: ast.NewIdent(name),
-			}, nil
+			}, typ.TypeArgs(), varPool, imports)
 		}
 
-		return ast.NewIdent(name), nil
+		return instantiateASTTypeExpr(pkg, ast.NewIdent(name), typ.TypeArgs(), varPool, imports)
 	case *types.Alias:
 		name := typ.Obj().Name()
 		if objPkg := typ.Obj().Pkg(); objPkg != nil && objPkg.Path() != pkg {
@@ -207,6 +207,29 @@ func createASTTypeExpr(pkg string, t types.Type, varPool *VarPool, imports map[s
 	default:
 		return nil, fmt.Errorf("unsupported type: %s", t.String())
 	}
+}
+
+// instantiateASTTypeExpr appends the type arguments of a generic instance (Box[int], pkg.Pair[K, V])
+// to the expression naming the generic type; a non-generic type is returned unchanged.
+func instantiateASTTypeExpr(pkg string, base ast.Expr, typeArgs *types.TypeList, varPool *VarPool, imports map[string]*Import) (ast.Expr, error) {
+	if typeArgs == nil || typeArgs.Len() == 0 {
+		return base, nil
+	}
+
+	args := make([]ast.Expr, 0, typeArgs.Len())
+	for i := 0; i < typeArgs.Len(); i++ {
+		expr, err := createASTTypeExpr(pkg, typeArgs.At(i), varPool, imports)
+		if err != nil {
+			return nil, fmt.Errorf("type argument %d: %w", i, err)
+		}
+		args = append(args, expr)
+	}
+
+	if len(args) == 1 {
+		return &ast.IndexExpr{X: base, Index: args[0]}, nil
+	}
+
+	return &ast.IndexListExpr{X: base, Indices: args}, nil
 }
 
 func CreateInjector(metaData *MetaData, build *BuildDirective, varPool *VarPool) (*Injector, error) {
